@@ -89,12 +89,17 @@ func c20Run(c c20Case, st *fw.Stats) []fw.Viol {
 	switch c.Kind {
 	case "auth":
 		accounts := c20Accounts[c.Accounts]
-		for _, placement := range []string{"route", "global", "group", "global+405", "global+404"} {
+		for _, placement := range []string{"route", "global", "group", "global+405", "global+404", "route-dynamic-cached", "route-dynamic-cached-repeat", "nested-group-siblings", "group-use-siblings", "nested-group-siblings-single-mw", "group-use-siblings-single-mw"} {
 			for _, hdr := range c20Auth {
 				st.Evals++
 				st.Nontrivial++
 				var trace []string
 				r := rux.New(rux.HandleMethodNotAllowed)
+				if strings.HasPrefix(placement, "route-dynamic-cached") {
+					r = rux.New(rux.HandleMethodNotAllowed, rux.CachingWithNum(2))
+				}
+				pass := func(ctx *rux.Context) {}
+				sibling := func(ctx *rux.Context) { trace = append(trace, "sibling-mw") }
 				auth := handlers.HTTPBasicAuth(accounts)
 				after := func(ctx *rux.Context) { trace = append(trace, "after-mw") }
 				main := func(ctx *rux.Context) {
@@ -109,6 +114,44 @@ func c20Run(c c20Case, st *fw.Stats) []fw.Viol {
 					r.GET("/s", main, after)
 				case "group":
 					r.Group("/", func() { r.GET("/s", main, after) }, auth)
+				case "route-dynamic-cached", "route-dynamic-cached-repeat":
+					// a dynamic route on a caching router: the second identical request is answered from the route cache
+					r.Group("/", func() { r.GET("/s/{id}", main, auth, after) }, pass)
+				case "nested-group-siblings":
+					// the gate is route-level middleware of the first of two sibling routes inside nested groups
+					r.Group("/", func() {
+						r.Group("/in", func() {
+							r.GET("/s", main, auth, after)
+							r.GET("/t", main, sibling)
+							r.GET("/u", main).Use(sibling, sibling)
+						}, pass)
+					}, pass, pass)
+				case "nested-group-siblings-single-mw":
+					// the same with exactly one route-level middleware per sibling (a single append into spare capacity)
+					r.Group("/", func() {
+						r.Group("/in", func() {
+							r.GET("/s", main, auth)
+							r.GET("/t", main, sibling)
+							r.GET("/u", main).Use(sibling)
+						}, pass)
+					}, pass, pass)
+				case "group-use-siblings-single-mw":
+					r.Group("/in", func() {
+						r.Use(pass)
+						r.Use(pass)
+						r.Use(pass)
+						r.GET("/s", main, auth)
+						r.GET("/t", main, sibling)
+						r.GET("/u", main, sibling)
+					})
+				case "group-use-siblings":
+					r.Group("/in", func() {
+						r.Use(pass)
+						r.Use(pass)
+						r.Use(pass)
+						r.GET("/s", main, auth, after)
+						r.GET("/t", main, sibling)
+					})
 				case "global+405", "global+404":
 					// the gate is global: it also guards requests that end in the not-allowed / not-found handlers
 					r.Use(auth)
@@ -123,6 +166,12 @@ func c20Run(c c20Case, st *fw.Stats) []fw.Viol {
 					})
 				}
 				req := httptest.NewRequest("GET", "/s", nil)
+				switch placement {
+				case "route-dynamic-cached", "route-dynamic-cached-repeat":
+					req = httptest.NewRequest("GET", "/s/7", nil)
+				case "nested-group-siblings", "group-use-siblings", "nested-group-siblings-single-mw", "group-use-siblings-single-mw":
+					req = httptest.NewRequest("GET", "/in/s", nil)
+				}
 				if placement == "global+405" {
 					req = httptest.NewRequest("DELETE", "/s", nil)
 				} else if placement == "global+404" {
@@ -130,6 +179,19 @@ func c20Run(c c20Case, st *fw.Stats) []fw.Viol {
 				}
 				if hdr != "<absent>" {
 					req.Header["Authorization"] = []string{hdr}
+				}
+				if placement == "route-dynamic-cached-repeat" {
+					// an earlier identical request with VALID credentials (or none, when every account list rejects) filled the cache
+					warm := httptest.NewRequest("GET", "/s/7", nil)
+					for u, p := range accounts {
+						warm.SetBasicAuth(u, p)
+						break
+					}
+					if len(accounts) == 0 {
+						warm.SetBasicAuth("any", "one")
+					}
+					_ = try(func() { r.ServeHTTP(httptest.NewRecorder(), warm) })
+					trace = nil
 				}
 				w := httptest.NewRecorder()
 				if pv := try(func() { r.ServeHTTP(w, req) }); pv != nil {
@@ -152,7 +214,11 @@ func c20Run(c c20Case, st *fw.Stats) []fw.Viol {
 				}
 				what := fmt.Sprintf("HTTPBasicAuth(%v) as %s middleware, Authorization %q", accounts, placement, hdr)
 				if open {
-					if strings.Join(trace, ",") != "after-mw,main user="+user || w.Code != 200 || w.Body.String() != "secret" {
+					wantTrace := "after-mw,main user=" + user
+					if strings.HasSuffix(placement, "-single-mw") {
+						wantTrace = "main user=" + user
+					}
+					if strings.Join(trace, ",") != wantTrace || w.Code != 200 || w.Body.String() != "secret" {
 						add("auth:closed-for-valid", fmt.Sprintf("%s: valid credentials, but downstream trace %v status %d body %q", what, trace, w.Code, w.Body.String()))
 					}
 					continue
@@ -358,7 +424,7 @@ func c20Run(c c20Case, st *fw.Stats) []fw.Viol {
 var c20Spec = fw.Spec[c20Case]{
 	ID:    "C20",
 	Level: "model_checking",
-	Rule: "complete decision tables: HTTPBasicAuth: 6 account maps (nil, empty, one user, empty password, two users, password containing ':') x 27 Authorization values (incl. the full square of known / unknown / empty users x matching / other / empty passwords) (absent, valid, wrong password, unknown user, empty user / password, no colon, bare scheme, bad base64, scheme in other case, other scheme, double space, padding, leading space, case-changed user, empty) x 5 placements (route, global, group middleware; global gate in front of the not-allowed and of the not-found handlers); " +
+	Rule: "complete decision tables: HTTPBasicAuth: 6 account maps (nil, empty, one user, empty password, two users, password containing ':') x 27 Authorization values (incl. the full square of known / unknown / empty users x matching / other / empty passwords) (absent, valid, wrong password, unknown user, empty user / password, no colon, bare scheme, bad base64, scheme in other case, other scheme, double space, padding, leading space, case-changed user, empty) x 11 placements (route, global, group middleware; global gate in front of the not-allowed and of the not-found handlers; a dynamic route on a caching router, first request and repeat after a valid one filled the cache; route-level gate of the first of several sibling routes inside nested groups / inside a group with three Use calls, with two and with exactly one route-level middleware per sibling); " +
 		"HTTPMethodOverrideHandler: 10 request methods x 13 override values x 6 carriers (none, header, query, body, header+query agreeing, header+body disagreeing - the last for totality only); WrapHTTPHandlers: lists of 1..4 distinguishable wrappers (+ the override gate in the list); WrapHTTPHandler / WrapHTTPHandlerFunc and their four aliases at every subset of positions of chains n<=4; every row is non-trivial",
 	Assume: []string{"'well-formed Basic credentials' = scheme Basic (any case), one space, valid base64, a colon in the decoded text", "when both override carriers disagree the statement does not say which wins; those rows are executed but not asserted"},
 	Bounds: func(tier string) map[string]any {
